@@ -5,6 +5,9 @@ mode "delay": runs the REAL dawgie.pl.schedule._delay for a specification built
     dawgie.tools.compliant.rule_10) at every requested clock instant.  The wall
     clock is injected by shadowing the name `datetime` in the namespace of
     dawgie.pl.schedule (no source edit).
+mode "shape": offers every shape of dawgie.MOMENT (fields absent / well typed /
+    ill typed) to the REAL rule_10, applied the way tools.compliant applies it to
+    a task module's events(); an accepted shape is evaluated by the real _delay.
 mode "fire":  drives the REAL schedule.periodics / defer / next_job_batch /
     complete (through farm.dispatch and farm.Hand, see harness/sched_h.World) on
     a generated engine with one or two periodic nodes in different packages (the
@@ -136,7 +139,62 @@ def run_delay(job):
             steps.append({'ev': 'Delay', 'args': args, 'obs': obs})
     finally:
         shadow(False)
-    return {'tid': job['id'], 'mode': 'delay', 'spec': {'k': spec['k'], 'n': spec['n'], 't': spec['t']}, 'acc': acc, 'steps': steps}
+    shape = {f: ('ok' if f in (spec['k'], 'time') else 'none') for f in ('boot', 'day', 'dom', 'dow', 'time')}
+    return {'tid': job['id'], 'mode': 'delay', 'spec': {'k': spec['k'], 'n': spec['n'], 't': spec['t']}, 'shape': shape, 'acc': acc, 'steps': steps}
+
+
+# ------------------------------------------------------------------ mode shape
+def make_shape_event(shape, values):
+    '''a dawgie.EVENT whose MOMENT has exactly the given shape, built the way an engine may build it
+    (the namedtuples are public; dawgie.schedule() is only a convenience and checks less than rule_10)'''
+    ok = {
+        'boot': True,
+        'day': real_datetime.date(*values['day']),
+        'dom': values['dom'],
+        'dow': values['dow'],
+        'time': hms(values['time']),
+    }
+    bad = {'day': '%04d-%02d-%02d' % tuple(values['day']), 'dom': str(values['dom']), 'dow': str(values['dow']), 'time': '12:00:00'}
+    fields = {f: (None if st == 'none' else ok[f] if st == 'ok' else bad[f]) for f, st in shape.items()}
+    return dawgie.EVENT(dawgie.ALG_REF(_dummy_factory, _DummyImpl()), dawgie.MOMENT(**fields))
+
+
+def run_shape(job):
+    '''the domain of the property comes from the REAL compliance rule: every shape is offered to
+    rule_10; for an accepted one the real _delay runs at the given instants'''
+    epoch = real_datetime.datetime(*job['epoch'], tzinfo=real_datetime.UTC)
+    shape = job['shape']
+    zero = {'now': 0, 'y': 0, 'm': 0, 'd': 0, 'wd': 0}
+    event = make_shape_event(shape, job['values'])
+    try:
+        acc = accepted(event)
+        note = ''
+    except Exception as ex:  # the rule itself fails on this shape: not accepted
+        acc, note = False, type(ex).__name__
+    steps = [{'ev': 'Init', 'args': zero, 'obs': {'ok': True, 'd': 0, 'exc': note}}]
+    fn = DELAY_FN[0] or schedule._delay
+    shadow(True)
+    try:
+        for now in job['nows'] if acc else []:
+            at = epoch + real_datetime.timedelta(seconds=now)
+            CLOCK.fn = lambda at=at: at
+            args = {'now': now, 'y': at.year, 'm': at.month, 'd': at.day, 'wd': at.isoweekday() - 1}
+            schedule.booted.clear()  # every evaluation is the first one of its process
+            try:
+                td = fn(event)
+                us = td.days * 86400 * 10**6 + td.seconds * 10**6 + td.microseconds
+                if us % 10**6:
+                    raise RuntimeError(f'non integral delay {td!r}')
+                obs = {'ok': True, 'd': us // 10**6, 'exc': ''}
+            except RuntimeError:
+                raise
+            except Exception as ex:
+                obs = {'ok': False, 'd': 0, 'exc': type(ex).__name__}
+            steps.append({'ev': 'Delay', 'args': args, 'obs': obs})
+    finally:
+        schedule.booted.clear()
+        shadow(False)
+    return {'tid': job['id'], 'mode': 'shape', 'spec': {'k': 'none', 'n': 0, 't': 0}, 'shape': shape, 'acc': acc, 'steps': steps}
 
 
 # ------------------------------------------------------------------- mode fire
@@ -363,7 +421,7 @@ def run_fire(job):
 
 
 def run_job(job):
-    return run_delay(job) if job['mode'] == 'delay' else run_fire(job)
+    return {'delay': run_delay, 'shape': run_shape, 'fire': run_fire}[job['mode']](job)
 
 
 # ------------------------------------------------------- in-memory mutants
@@ -395,6 +453,27 @@ def install_mutant(name):
                 raise ValueError('day is out of range for month')
             return d
 
+    elif name == 'rule_time_optional':  # the compliance rule stops insisting on a time of day -> Computable (shape domain)
+        mutant = None
+        real_rule = compliant.rule_10
+
+        def lenient(task):
+            import importlib
+
+            mod = importlib.import_module(task)
+            hidden = []
+            for e in mod.events():
+                m = e.moment
+                if m.boot is None and m.time is None:  # judge it as if it carried a time
+                    e = dawgie.EVENT(e.algref, m._replace(time=hms(0)))
+                hidden.append(e)
+            orig, mod.events = mod.events, (lambda: hidden)
+            try:
+                return real_rule(task)
+            finally:
+                mod.events = orig
+
+        compliant.rule_10 = lenient
     elif name == 'first_target_only':  # a due task is queued for one target only -> FireTargets
         mutant = None
 
